@@ -35,6 +35,12 @@ Theorem C15_unrank_ok_descending_rank : forall n k index,
 Proof. exact unrank_spec. Qed.
 Print Assumptions C15_unrank_ok_descending_rank.
 
+(* the model's fuel is never exhausted for n >= 0, whatever the index (in range or not): the
+   while loop of the implementation terminates; the only error is the ZeroDivisionError (tag 8) *)
+Theorem C15_fuel_never_exhausted : forall index n k, 0 <= n -> unrank index n k <> Err 9.
+Proof. exact unrank_no_fuel_error. Qed.
+Print Assumptions C15_fuel_never_exhausted.
+
 (* ranks of descending k-tuples below n lie in [0, C(n,k)) *)
 Theorem C15_rank_in_range : forall c n, desc_below n c -> 0 <= rank c < Cz n (length c).
 Proof. exact rank_range. Qed.
